@@ -101,7 +101,9 @@ pub enum Answer {
   Text(String),
   Size(usize),
   /// per-byte attribution through the returned map
-  MapAttr(Vec<AttrFull>),
+  /// attribution of every position; whether there was a map at all (None where known finding K1 makes that depend on
+  /// the tree's pass-through SourceMapSource leaves)
+  MapAttr(Vec<AttrFull>, Option<bool>),
   /// text, end info, per-byte attribution (columns=true) or per-line attribution (columns=false)
   Stream(String, (u32, u32), Vec<AttrFull>, BTreeMap<u32, (String, Option<String>, u32)>),
   Hash(u64),
@@ -361,7 +363,8 @@ fn run_op<'a>(tree: &'a BoxSource, other: &BoxSource, near: &BoxSource, spec: &S
     Op::Map(c) => {
       let m = tree.map(&opts(c, false));
       IDENTITIES.with(|i| i.borrow_mut().push((c, identity(&m))));
-      Answer::MapAttr(attr_from_map(m.as_ref(), text, c).unwrap_or_else(|e| vec![Some((e, None, 0, 0, None))]))
+      let some = (!spec.any(&|s| matches!(s, Spec::Sms { .. } | Spec::Custom { .. }))).then_some(m.is_some());
+      Answer::MapAttr(attr_from_map(m.as_ref(), text, c).unwrap_or_else(|e| vec![Some((e, None, 0, 0, None))]), some)
     }
     Op::Stream(c) => stream_answer(&**tree, c, keep),
     Op::Hash => {
@@ -377,7 +380,8 @@ fn run_op<'a>(tree: &'a BoxSource, other: &BoxSource, near: &BoxSource, spec: &S
     Op::CloneMap(c) => {
       let cl = dyn_clone::clone_box(&**tree);
       let m = cl.map(&opts(c, false));
-      Answer::MapAttr(attr_from_map(m.as_ref(), text, c).unwrap_or_else(|e| vec![Some((e, None, 0, 0, None))]))
+      let some = (!spec.any(&|s| matches!(s, Spec::Sms { .. } | Spec::Custom { .. }))).then_some(m.is_some());
+      Answer::MapAttr(attr_from_map(m.as_ref(), text, c).unwrap_or_else(|e| vec![Some((e, None, 0, 0, None))]), some)
     }
     Op::EqTwin => Answer::Eq(**tree == *build(spec)),
     Op::EqShared(rev) => Answer::Eq(if rev { **other == **tree } else { **tree == **other }),
@@ -392,7 +396,7 @@ fn run_op<'a>(tree: &'a BoxSource, other: &BoxSource, near: &BoxSource, spec: &S
 /// For such trees only text, end information, size, hash and equality are compared.
 fn coarse(a: &Answer) -> Answer {
   match a {
-    Answer::MapAttr(_) => Answer::MapAttr(vec![]),
+    Answer::MapAttr(_, some) => Answer::MapAttr(vec![], *some),
     Answer::Stream(t, i, _, _) => Answer::Stream(t.clone(), *i, vec![], BTreeMap::new()),
     other => other.clone(),
   }
@@ -585,7 +589,7 @@ fn judge(p: &Program, want: &[Vec<Answer>], out: &RunOut, schedule: &[u8]) -> Re
       let w = &w_c;
       if got != Some(w) {
         let show = |a: Option<&Answer>| match a {
-          Some(Answer::MapAttr(v)) => format!("map attributing {:?}", v.iter().flatten().next()),
+          Some(Answer::MapAttr(v, some)) => format!("map (there is one: {some:?}) attributing {:?}", v.iter().flatten().next()),
           Some(Answer::Stream(t, i, _, _)) => format!("stream of {t:?} ending at {i:?}"),
           Some(x) => format!("{x:?}"),
           None => "<no answer>".into(),
